@@ -51,3 +51,17 @@ Definition classified : list (string * list (string * N)) :=
      [("panic_macro", 0%N); ("unwrap", 2%N); ("expect", 0%N); ("assert", 0%N); ("debug_assert", 0%N); ("get_unchecked", 0%N); ("narrowing_cast", 5%N); ("index_expr", 12%N)]);
     ("plugin/oov/simple_oov/mod.rs",
      [("panic_macro", 0%N); ("unwrap", 0%N); ("expect", 0%N); ("assert", 0%N); ("debug_assert", 0%N); ("get_unchecked", 0%N); ("narrowing_cast", 3%N); ("index_expr", 0%N)]) ].
+
+(* ---- status of the classes above: "reviewed" (reasons in the header comment) or "proved: <theorem>".
+   The per-function tables behind a "proved" line are compared with the regenerated source shape by their own obligations
+   (C03_fact_lattice_sites for analysis/lattice.rs: Proofs/LatticeSitesClassified.v). ---- *)
+Definition site_status : list (string * string * string) :=
+  [ ("analysis/lattice.rs", "unwrap", "proved: C03_lattice_no_index_panic (eos.unwrap() sits behind the is_none() return; no path to the site in Model/LatticeP.v)");
+    ("analysis/lattice.rs", "narrowing_cast", "proved: C03_lattice_no_index_panic (4 `as u16` are identities under round_wf; 2 `as i32` widen i16)");
+    ("analysis/lattice.rs", "index_expr", "proved: C03_lattice_no_index_panic for 11 of 16 brackets (connect_bos, connect_node, insert, node, fill_top_path); reviewed: the 5 of dump() (debug output only)");
+    ("analysis/stateful_tokenizer.rs", "narrowing_cast", "proved for byte_begin / byte_end as u16 in resolve_best_path: C03_resolve_node_ok; reviewed: the others (positions <= 65535: C03_positions_fit_u16; OOV POS id)");
+    ("analysis/stateful_tokenizer.rs", "unwrap", "reviewed (swap_result: C10 failed_analysis_usable; oov_providers.last(): NoOOVPluginProvided at load)");
+    ("input_text/buffer/mod.rs", "index_expr", "proved for the 13 brackets of to_orig_byte_idx, to_orig_char_idx, to_curr_byte_idx, curr_slice_c, orig_slice, to_orig, ch_idx: C03_accessors_no_index_panic / C03_resolve_node_ok / C03_chain_accessors_ok (tables of Proofs/AccessorSitesClassified.v); proved in C08 for orig_slice_c / curr_slice; reviewed: build(), commit(), the category accessors");
+    ("input_text/buffer/mod.rs", "debug_assert", "proved for to_orig_char_idx (res != usize::MAX) and the two boundary assertions of orig_slice: C03_accessors_no_index_panic; reviewed: the RW/RO state assertions");
+    ("dic/connect.rs", "debug_assert", "proved for the lattice's calls: C03_conn_cost_in_table (ids below the dimensions: C20_accepted_config_index_safe)");
+    ("dic/connect.rs", "get_unchecked", "proved for the lattice's calls: C03_conn_cost_in_table") ].
